@@ -2388,3 +2388,24 @@ def m_builder_into_script(ex, st, func, args, argtys, dest_ty):
 @model(r"^<&(bitcoin::)?(script::)?PushBytes as TryFrom<&\[u8\]>>::try_from$|^<&\[u8\] as TryInto<&(bitcoin::)?(script::)?PushBytes>>::try_into$")
 def m_pushbytes_try_from(ex, st, func, args, argtys, dest_ty):
     return [("ret", ok(args[0]), None)]
+
+
+@model(r"^<std::vec::IntoIter<.*> as Iterator>::rev$")
+def m_vec_into_iter_rev(ex, st, func, args, argtys, dest_ty):
+    v = deref(args[0])
+    if not isinstance(v, Container):
+        raise Unsupported("rev of %r" % (v,))
+    return [("ret", Container("vec", list(reversed(list(v)))), None)]
+
+
+@model(r"^<Rev<std::vec::IntoIter<.*>> as Iterator>::next$")
+def m_rev_vec_iter_next(ex, st, func, args, argtys, dest_ty):
+    it = cref(args[0]).get()
+    if len(it) == 0:
+        return [("ret", none(), None)]
+    return [("ret", some(it.pop(0)), None)]
+
+
+@model(r"^<char as From<u8>>::from$")
+def m_char_from_u8(ex, st, func, args, argtys, dest_ty):
+    return [("ret", args[0], None)]
